@@ -289,6 +289,29 @@ func panicSig(msg, stack string) string {
 			return strings.TrimPrefix(l, "github.com/lavanet/lava/v5/")
 		}
 	}
+	// no lava frame on the stack (e.g. a dependency panics on an error a lava hook returned): the
+	// function that panicked = first frame after panic() that is neither runtime nor harness
+	seenPanic := false
+	for _, l := range lines {
+		if strings.HasPrefix(l, "\t") || strings.HasPrefix(l, " ") {
+			continue
+		}
+		l = strings.TrimSpace(l)
+		if strings.HasPrefix(l, "panic(") {
+			seenPanic = true
+			continue
+		}
+		if !seenPanic || l == "" || strings.HasPrefix(l, "runtime.") || strings.HasPrefix(l, "runtime/") || strings.Contains(l, "zz_verif") || strings.Contains(l, "simrt.") || strings.HasPrefix(l, "goroutine ") {
+			continue
+		}
+		for i := 0; i < len(l); i++ {
+			if l[i] == '(' && !(i+1 < len(l) && l[i+1] == '*') {
+				l = l[:i]
+				break
+			}
+		}
+		return strings.TrimPrefix(l, "github.com/")
+	}
 	if len(msg) > 80 {
 		msg = msg[:80]
 	}
